@@ -183,6 +183,12 @@ instance {b : Type} [Truthy b] : AnyAll (A0 b) := ⟨fun x => Truthy.t x.v⟩
 instance {b : Type} {n : Nat} [Truthy b] : AnyAll (A1 n b) := ⟨fun x => anyFin fun j => Truthy.t (x.v j)⟩
 instance {b : Type} {m n : Nat} [Truthy b] : AnyAll (A2 m n b) := ⟨fun x => anyFin fun i => anyFin fun j => Truthy.t (x.v i j)⟩
 def any_all {X : Type} [AnyAll X] (x : X) : Bool := AnyAll.anyAll x
+instance {a : Type} {m n : Nat} : Mp (Cols m n a) a (Cols m n) := ⟨fun f x => ⟨fun i j => f (x.v i j), x.keep⟩⟩
+instance {a b : Type} {m n : Nat} : Bc (A0 a) (Cols m n b) a b (Cols m n) := ⟨fun f x y => ⟨fun i j => f x.v (y.v i j), y.keep⟩⟩
+instance {a b : Type} {m n : Nat} : Bc (Cols m n a) (A0 b) a b (Cols m n) := ⟨fun f x y => ⟨fun i j => f (x.v i j) y.v, x.keep⟩⟩
+/-- `x[:, mask] = c`: the selected columns are overwritten -/
+def set_cols {b : Type} {m n : Nat} (x : A2 m n b) (mask : A1 n Bool) (c : Cols m n b) : A2 m n b :=
+  ⟨fun i j => if mask.v j then c.v i j else x.v i j⟩
 /-- `c in arr` -/
 def contains {b : Type} {n : Nat} [DecidableEq b] (arr : A1 n b) (c : A0 b) : Bool := anyFin fun j => decide (arr.v j = c.v)
 /-- `if cond: x = e1 else: x = e2` where one branch may be a scalar that later broadcasts against the other -/
